@@ -17,11 +17,15 @@ import (
 	"crypto/x509/pkix"
 	"encoding/binary"
 	"encoding/hex"
+	"encoding/json"
 	"errors"
 	"fmt"
 	"io"
 	"math/big"
 	"net"
+	"os"
+	"os/exec"
+	"path/filepath"
 	"runtime"
 	"strings"
 	"sync"
@@ -1067,6 +1071,115 @@ func c07gen(c *h.Ctx) []c07case {
 	return cases
 }
 
+// ---------------------------------------------------------------- the 32-bit leg (GOARCH=386 helper cmd/c07w32)
+
+type c07w32case struct {
+	Max    int    `json:"max"`
+	Data   string `json:"data"`
+	K      int    `json:"k"`
+	Attach bool   `json:"attach"`
+	W32    bool   `json:"w32"`
+	L      uint32 `json:"announced_length"` // length field of the first header
+	data   []byte
+	fills  []c07fill
+}
+
+type c07w32obs struct {
+	Class   int      `json:"class"`
+	Code    int      `json:"code"`
+	Payload string   `json:"payload"`
+	Trace   [][2]int `json:"trace"`
+	Rest    int      `json:"rest"`
+	Panic   string   `json:"panic"`
+}
+
+func c07w32gen() []c07w32case {
+	const MiB = 1 << 20
+	var cases []c07w32case
+	ls := []uint32{0, 3, 8, 1 << 20, 1<<31 - 25, 1<<31 - 24, 1<<31 - 17, 1<<31 - 16, 1<<31 - 15, 1<<31 - 9, 1<<31 - 8, 1<<31 - 7, 1<<31 - 1,
+		1 << 31, 1<<31 + 1, 1<<31 + 8, 3 << 30, 1<<32 - 16, 1<<32 - 9, 1<<32 - 8, 1<<32 - 7, 1<<32 - 1}
+	for _, max := range []int{MiB, 64, -1, 0} {
+		for _, l := range ls {
+			if max <= 0 && l > 16 && l <= 1<<31-17 {
+				continue // addressable and unlimited: Recv would (rightly) try to buffer it
+			}
+			for _, k := range []int{1000, 1, 3} {
+				for _, attach := range []bool{false, true} {
+					b := &c07builder{}
+					if l <= 16 {
+						b.msgFill(0x420001, int(l), int(l)+k)
+					} else {
+						b.oversize(0x420001, l, 16)
+					}
+					b.msg(0x420002, []byte{1, 2, 3})
+					cases = append(cases, c07w32case{Max: max, Data: hex.EncodeToString(b.data), K: k, Attach: attach, W32: true, L: l, data: b.data, fills: b.fills})
+				}
+			}
+		}
+	}
+	return cases
+}
+
+// c07w32run cross-compiles and runs the helper; a nil slice with a reason when the leg is unavailable.
+func c07w32run(c *h.Ctx, cases []c07w32case) ([][]c07w32obs, string) {
+	bin := filepath.Join(c.Out, "c07w32")
+	build := exec.Command("go", "build", "-tags", "verif", "-o", bin, "./cmd/c07w32")
+	build.Dir = filepath.Join(c.Verif, "harness")
+	build.Env = append(os.Environ(), "GOARCH=386", "CGO_ENABLED=0")
+	if out, err := build.CombinedOutput(); err != nil {
+		return nil, "cannot build for GOARCH=386: " + err.Error() + ": " + string(out)
+	}
+	in, _ := json.Marshal(cases)
+	run := exec.Command(bin)
+	run.Stdin = bytes.NewReader(in)
+	var stderr bytes.Buffer
+	run.Stderr = &stderr
+	out, err := run.Output()
+	if err != nil {
+		return nil, "cannot run the GOARCH=386 helper: " + err.Error() + ": " + stderr.String()
+	}
+	var obs [][]c07w32obs
+	if err := json.Unmarshal(out, &obs); err != nil || len(obs) != len(cases) {
+		return nil, "bad output of the GOARCH=386 helper"
+	}
+	return obs, ""
+}
+
+// c07w32check: the property on the 32-bit observations, and the row for the model at W = 32.
+func c07w32check(c *h.Ctx, cs c07w32case, obs []c07w32obs) (row []byte, caseJSON map[string]any) {
+	caseJSON = map[string]any{"w32": true, "max": cs.Max, "data": cs.Data, "k": cs.K, "attach": cs.Attach, "announced_length": cs.L}
+	ann := 8 + int64(cs.L) + int64((8-cs.L%8)%8)
+	// sizes within 16 bytes of MaxInt32 are refused as well (the guard of computeNeededBytes is l > MaxInt-16)
+	refused := (cs.Max > 0 && ann > int64(cs.Max)) || int64(cs.L) > 1<<31-1-16
+	var os []c07obs
+	for i, o := range obs {
+		p, _ := hex.DecodeString(o.Payload)
+		co := c07obs{class: o.Class, code: o.Code, payload: p, rest: o.Rest, grew: 2}
+		consumed := 0
+		for _, t := range o.Trace {
+			co.trace = append(co.trace, c07read{want: t[0], n: t[1]})
+			consumed += t[1]
+		}
+		os = append(os, co)
+		c.Count(fmt.Sprintf("w32-recv-outcome:%s", []string{"message", "library-error", "transport-error", "?", "unexpected-eof", "panic", "other"}[o.Class]))
+		if o.Class == 5 {
+			c.Fail("C07/int32/panic", fmt.Sprintf("32-bit int: Recv #%d panicked on a header announcing length %d: %s", i, cs.L, o.Panic), caseJSON)
+		}
+		if i == 0 {
+			switch {
+			case refused && o.Class != 1 && o.Class != 5:
+				c.Fail("C07/int32/oversize-not-rejected", fmt.Sprintf("32-bit int: header announcing %d bytes (max %d) was not rejected: class %d", ann, cs.Max, o.Class), caseJSON)
+			case refused && consumed > 8:
+				c.Fail("C07/int32/oversize-body-consumed", fmt.Sprintf("32-bit int: %d bytes consumed of an item announcing %d bytes (max %d)", consumed, ann, cs.Max), caseJSON)
+			case !refused && (o.Class != 0 || !bytes.Equal(p, cs.data[:ann])):
+				c.Fail("C07/int32/complete-message-lost", fmt.Sprintf("32-bit int: class %d on a complete %d byte message", o.Class, ann), caseJSON)
+			}
+		}
+	}
+	sched := c07uniform(cs.K, 400, cs.Attach)
+	return c07encodeRow(cs.Max, cs.data, cs.fills, sched, 0, false, os), caseJSON
+}
+
 func c07caseFromReplay(m map[string]any) (c07case, error) {
 	var cs c07case
 	cs.Family, _ = m["family"].(string)
@@ -1132,18 +1245,30 @@ func driveC07(c *h.Ctx) error {
 		"F. standard transports (bytes.Reader, iotest One-byte/Half/DataErr/Timeout readers, crypto/tls 1.2 with close_notify behind the data). " +
 		"A case is non-trivial when some message is not delivered by exactly one read per phase (header, body) or the stream is cut / oversize / faulty; distinct by (max, bytes, schedule, end error, transport)")
 	var cases []c07case
+	var w32cases []c07w32case
 	if c.Replay != nil {
 		m, _ := c.Replay["case"].(map[string]any)
 		if m == nil {
 			return fmt.Errorf("replay file has no case")
 		}
-		cs, err := c07caseFromReplay(m)
-		if err != nil {
-			return err
+		if w, _ := m["w32"].(bool); w {
+			var cs c07w32case
+			b, _ := json.Marshal(m)
+			if err := json.Unmarshal(b, &cs); err != nil {
+				return err
+			}
+			cs.data, _ = hex.DecodeString(cs.Data)
+			w32cases = append(w32cases, cs)
+		} else {
+			cs, err := c07caseFromReplay(m)
+			if err != nil {
+				return err
+			}
+			cases = append(cases, cs)
 		}
-		cases = append(cases, cs)
 	} else {
 		cases = c07gen(c)
+		w32cases = c07w32gen()
 	}
 	var rows [][]byte
 	var rowCase []map[string]any
@@ -1223,27 +1348,55 @@ func driveC07(c *h.Ctx) error {
 		rows = append(rows, c07encodeRow(cs.Max, cs.data, cs.fills, sched, end, cs.Std != "", obs))
 		rowCase = append(rowCase, caseJSON)
 	}
-	if c.Replay == nil {
-		c.Extra("note_32bit", "the driver runs on a 64-bit Go int; the model's W=32 instance is exercised only inside Rocq")
+	// ---- the 32-bit leg
+	var rows32 [][]byte
+	var rowCase32 []map[string]any
+	if len(w32cases) > 0 {
+		obs32, why := c07w32run(c, w32cases)
+		if obs32 == nil {
+			c.Extra("int32_leg", "skipped: "+why)
+			if c.Replay != nil {
+				return fmt.Errorf("32-bit replay impossible: %s", why)
+			}
+		} else {
+			c.Extra("int32_leg", fmt.Sprintf("%d cases run by a GOARCH=386 build of ttlv.Stream.Recv and compared with the model at W = 32", len(w32cases)))
+			for i, cs := range w32cases {
+				row, cj := c07w32check(c, cs, obs32[i])
+				c.Eval(fmt.Sprintf("w32|%d|%s|%d|%v", cs.Max, cs.Data, cs.K, cs.Attach), true)
+				c.Count("family:W32-int-width")
+				if i == 100 {
+					c.Sample(map[string]any{"case": cj, "observed": obs32[i]})
+				}
+				rows32 = append(rows32, row)
+				rowCase32 = append(rowCase32, cj)
+			}
+		}
 	}
 	var sb strings.Builder
 	sb.WriteString("From Coq Require Import ZArith List Bool.\nFrom KV Require Import Base Stream Cases.\nImport ListNotations.\nOpen Scope Z_scope.\n")
 	// blobs of whole rows; 7 bytes per primitive-integer literal (by far the cheapest literals to parse);
 	// one mismatch table per blob
 	type blob struct {
+		table    string
+		w        int
 		first, n int
 		b        []byte
 	}
 	var blobs []blob
-	for i, r := range rows {
-		if len(blobs) == 0 || len(blobs[len(blobs)-1].b)+len(r) > 40000 {
-			blobs = append(blobs, blob{first: i})
+	mkBlobs := func(rows [][]byte, rowCase []map[string]any, prefix string, w int) {
+		start := len(blobs)
+		for i, r := range rows {
+			if len(blobs) == start || len(blobs[len(blobs)-1].b)+len(r) > 40000 {
+				blobs = append(blobs, blob{table: fmt.Sprintf("%s_%d", prefix, len(blobs)-start), w: w, first: i})
+			}
+			bl := &blobs[len(blobs)-1]
+			bl.b = append(bl.b, r...)
+			bl.n++
+			c.IndexCase(bl.table, i, rowCase[i])
 		}
-		bl := &blobs[len(blobs)-1]
-		bl.b = append(bl.b, r...)
-		bl.n++
-		c.IndexCase(fmt.Sprintf("mism_recv_%d", len(blobs)-1), i, rowCase[i])
 	}
+	mkBlobs(rows, rowCase, "mism_recv", 64)
+	mkBlobs(rows32, rowCase32, "mism_int32", 32)
 	sb.WriteString("From Coq Require Import Uint63.\nOpen Scope uint63_scope.\n")
 	for i, bl := range blobs {
 		var words []string
@@ -1362,23 +1515,23 @@ Fixpoint all2 {A B} (f : A -> B -> bool) (a : list A) (b : list B) : bool :=
   | x :: xs, y :: ys => f x y && all2 f xs ys
   | _, _ => false
   end.
-Definition row_ok (r : row) : bool :=
+Definition row_ok (W : Z) (r : row) : bool :=
   match r with (max, data, sched, e, norest, grews, hv) =>
-    let rs := recv_n (list Z) um 64 max (length grews) (mkTr data e sched) in
+    let rs := recv_n (list Z) um W max (length grews) (mkTr data e sched) in
     negb (len grews =? 0) && all2 grew_ok rs grews && (fold_left (obs_hash norest) rs 7 =? hv)
   end.
 `)
 	var lens []string
 	for i, bl := range blobs {
-		fmt.Fprintf(&sb, "Definition mism_recv_%d := Eval vm_compute in bad_idx row_ok (rows_of blob_%d) %d.\nPrint mism_recv_%d.\n", i, i, bl.first, i)
+		fmt.Fprintf(&sb, "Definition %s := Eval vm_compute in bad_idx (row_ok %d) (rows_of blob_%d) %d.\nPrint %s.\n", bl.table, bl.w, i, bl.first, bl.table)
 		lens = append(lens, fmt.Sprintf("len (rows_of blob_%d)", i))
 	}
 	if len(lens) == 0 {
 		lens = []string{"0"}
 	}
-	fmt.Fprintf(&sb, "Definition mism_count := Eval vm_compute in (if %s =? %d then [] else [0]).\nPrint mism_count.\n", strings.Join(lens, " + "), len(rows))
-	c.Extra("model_rows_written", len(rows))
-	return c.WriteCases("cases_C07.v", sb.String(), len(rows))
+	fmt.Fprintf(&sb, "Definition mism_count := Eval vm_compute in (if %s =? %d then [] else [0]).\nPrint mism_count.\n", strings.Join(lens, " + "), len(rows)+len(rows32))
+	c.Extra("model_rows_written", len(rows)+len(rows32))
+	return c.WriteCases("cases_C07.v", sb.String(), len(rows)+len(rows32))
 }
 
 func c07traceStr(t []c07read) string {
